@@ -361,6 +361,35 @@ pub fn completion(e: &Exec, ops: &[OpRec]) -> V {
                                 ),
                             );
                         }
+                    } else {
+                        // the process is already gone from the cache (no keep_processes): the states
+                        // last written before the end of the delivering activity, from the trace
+                        let upto = e.points.iter().find(|q| q.at > i).map(|q| q.at).unwrap_or(e.trace.len());
+                        let mut last: BTreeMap<String, (String, String, String, bool)> = BTreeMap::new();
+                        for t in &e.trace[..upto.min(e.trace.len())] {
+                            match t {
+                                Tr::TaskEvent { pid: p, tid, nid, kind, state, is_hook, .. } if p == pid => {
+                                    last.insert(tid.clone(), (kind.clone(), nid.clone(), state.clone(), *is_hook));
+                                }
+                                Tr::StateWrite { pid: p, tid, new, .. } if p == pid => {
+                                    if let Some(x) = last.get_mut(tid) {
+                                        x.2 = new.clone();
+                                    }
+                                }
+                                _ => {}
+                            }
+                        }
+                        let open: Vec<String> = last.values().filter(|x| !is_terminal_state(&x.2) && !x.3).map(|x| format!("{} {} {}", x.0, x.1, x.2)).collect();
+                        if !open.is_empty() {
+                            push(
+                                &mut v,
+                                format!("open-after-terminal/{}/{}", term_at.as_ref().unwrap().1, action_of(ops, i)),
+                                format!(
+                                    "process {pid} delivered its terminal event ({}) and tasks are left open: {open:?}",
+                                    term_at.as_ref().unwrap().1
+                                ),
+                            );
+                        }
                     }
                 }
                 Tr::TaskEvent {
